@@ -87,6 +87,9 @@ impl Gen<'_> {
             ElemKind::OptU64 => {
                 if self.dups && self.r.chance(1, 4) { MVal::OptInt(None) } else { MVal::OptInt(Some(100 + self.next_val)) }
             }
+            ElemKind::OptStr => {
+                if self.dups && self.r.chance(1, 4) { MVal::OptStr(None) } else { MVal::OptStr(Some(format!("o{}", self.next_val))) }
+            }
             ElemKind::Str => MVal::Str(format!("s{}", self.next_val)),
             ElemKind::T24 | ElemKind::Big => MVal::Obj(1000 + self.next_val),
             ElemKind::F64 => {
@@ -110,6 +113,7 @@ impl Gen<'_> {
                 ElemKind::U8 => MVal::Int(0xC8),
                 ElemKind::U64 | ElemKind::U32 => MVal::Int(99),
                 ElemKind::OptU64 => MVal::OptInt(if self.r.chance(1, 2) { None } else { Some(99) }),
+                ElemKind::OptStr => MVal::OptStr(if self.r.chance(1, 2) { None } else { Some("absent".into()) }),
                 ElemKind::Str => MVal::Str("absent".into()),
                 ElemKind::T24 | ElemKind::Big => MVal::Obj(999),
                 ElemKind::F64 => MVal::F((*self.r.pick(&[99.25f64, 0.0, -0.0, f64::NAN])).to_bits()),
@@ -141,7 +145,7 @@ fn elem_for(r: &mut Rng, with_nested: bool) -> ElemKind {
             ElemKind::F64,
             ElemKind::U32,
             ElemKind::OptU64,
-            ElemKind::OptU64,
+            ElemKind::OptStr,
         ])
     } else {
         *r.pick(&[
@@ -159,6 +163,7 @@ fn elem_for(r: &mut Rng, with_nested: bool) -> ElemKind {
             ElemKind::F64,
             ElemKind::U32,
             ElemKind::OptU64,
+            ElemKind::OptStr,
         ])
     }
 }
@@ -482,6 +487,7 @@ pub fn execute(d: &ListDesc, w: &Arc<Warm>, keep_trace: bool) -> RunResult {
         ElemKind::F64 => exec_t::<f64>(d, w, keep_trace),
         ElemKind::U32 => exec_t::<u32>(d, w, keep_trace),
         ElemKind::OptU64 => exec_t::<Option<u64>>(d, w, keep_trace),
+        ElemKind::OptStr => exec_t::<Option<RotoString>>(d, w, keep_trace),
     }
 }
 
